@@ -151,6 +151,38 @@ Definition line_sums_S (id : Z) (mk : TR.case_gen) (path : list nat) (impl_init 
                (if String.eqb (show_cost expected) (show_cost cost) then show_cost cost
                 else "REJECT(route.cost is not the rated last state and its sum)")).
 
+(* responses with several routes (k-shortest paths) and / or the zero-cost end edges of an edge-oriented query:
+   [op] is TR.OMulti <paths> or TR.OEdge origin destination <inner paths>; EVERY route is re-walked / judged on ITS
+   OWN edges, every traversal_summary and cost against ITS OWN last state *)
+Definition sums_case_op (mk : TR.case_gen) (op : TR.op) : TR.case_gen :=
+  fun A c => let k := mk A c in
+             TR.Build_case_t (TR.c_nv k) (TR.c_edges k) (TR.c_features k) (TR.c_user k) (TR.c_tm k) (TR.c_am k)
+                             (TR.c_cost k) op true.
+Definition line_sums_multi_M (id : Z) (mk : TR.case_gen) (op : TR.op) : string :=
+  let c := sums_case_op mk op float (fun x => x) in
+  let o := TR.run FN c in
+  line "M" id (TR.show_outcome show_float o ++ " costs=" ++
+               match o with
+               | TR.OMultiRoutes _ _ ss =>
+                   show_list (fun s => match s with Ok kv => show_cost (cost_entries FN c kv) | _ => "None" end) ss
+               | _ => "None"
+               end).
+Definition line_sums_multi_S (id : Z) (mk : TR.case_gen) (op : TR.op) (impl_init : list float)
+           (routes : list (list (Traversal.etrav float) * list float * list (string * float) * list (string * float)))
+  : string :=
+  let g := sums_case_op mk op in
+  let names := map (fun k => "r" ++ show_nat k) (seq 0 (List.length routes)) in
+  let verdict := TR.judge (g Q TR.qf) impl_init
+                          (TR.OMultiRoutes (map (fun nr => (fst nr, Ok (fst (fst (fst (snd nr)))))) (combine names routes))
+                                           (map (fun r => snd (fst (fst r))) routes)
+                                           (map (fun r => Ok (snd (fst r))) routes)) in
+  line "S" id (verdict ++ " costs=" ++
+               show_list (fun r => let summary := snd (fst r) in
+                                   let cost := snd r in
+                                   if String.eqb (show_cost (cost_entries FN (g float (fun x => x)) summary)) (show_cost cost)
+                                   then show_cost cost
+                                   else "REJECT(route.cost is not the rated last state of this route and its sum)") routes).
+
 (* a query without a route (error response): nothing to judge for this property; both lines repeat the status *)
 Definition line_echo (tag : string) (id : Z) (text : string) : string := line tag id text.
 
